@@ -129,7 +129,7 @@ class Ctx:
             wit = [f for f in j.failed if 'WITNESS' in (f[1] or '')]
             if j.status == 'failed' and wit:
                 vals = replay.inputs_from_trace(wit[0][2])
-                r = replay.native_replay(j.workdir, harness_c, vals, j.name)
+                r = replay.native_replay(j.workdir, harness_c, vals, j.name, extra_cflags=getattr(j, 'replay_cflags', ()))
                 self.replayed += 1
                 if r['outcome'] == 'assert' and 'WITNESS' in r.get('assertion', ''):
                     self.record(j.name, 'witness-reached', inputs=_short(vals), **rec)
@@ -169,7 +169,7 @@ class Ctx:
         reproduced = False
         for prop, desc, trace, loc in j.failed[:3]:
             vals = replay.inputs_from_trace(trace)
-            r = replay.native_replay(j.workdir, harness_c, vals, j.name + '_%d' % seen)
+            r = replay.native_replay(j.workdir, harness_c, vals, j.name + '_%d' % seen, extra_cflags=getattr(j, 'replay_cflags', ()))
             seen += 1
             self.replayed += 1
             payload = dict(property=self.prop, job=j.name, meta={k: v for k, v in meta.items() if isinstance(v, (str, int, float, list, dict))},
